@@ -22,13 +22,13 @@ import (
 // RegProfile is the capability profile of the simulated registry, drawn per run.
 type RegProfile struct {
 	ReferrersAPI    bool   `json:"referrers_api"`
-	OCISubject      bool   `json:"oci_subject,omitempty"`   // answer manifest PUT with OCI-Subject (needs ReferrersAPI)
-	DigestHeader    bool   `json:"digest_header"`           // Docker-Content-Digest on responses
-	Range           bool   `json:"range,omitempty"`         // Accept-Ranges: bytes and Range requests
-	MountOK         bool   `json:"mount_ok,omitempty"`      // cross-repository mount answers 201
+	OCISubject      bool   `json:"oci_subject,omitempty"`       // answer manifest PUT with OCI-Subject (needs ReferrersAPI)
+	DigestHeader    bool   `json:"digest_header"`               // Docker-Content-Digest on responses
+	Range           bool   `json:"range,omitempty"`             // Accept-Ranges: bytes and Range requests
+	MountOK         bool   `json:"mount_ok,omitempty"`          // cross-repository mount answers 201
 	NoContentLength bool   `json:"no_content_length,omitempty"` // GET bodies are sent without Content-Length
-	Location        string `json:"location,omitempty"`      // relative | absolute | query
-	TagCap          int    `json:"tag_cap,omitempty"`       // server-imposed page sizes (0 = none)
+	Location        string `json:"location,omitempty"`          // relative | absolute | query
+	TagCap          int    `json:"tag_cap,omitempty"`           // server-imposed page sizes (0 = none)
 	RefCap          int    `json:"ref_cap,omitempty"`
 	CatalogCap      int    `json:"catalog_cap,omitempty"`
 	LinkForm        int    `json:"link_form,omitempty"`
@@ -76,21 +76,22 @@ type NetFault struct {
 }
 
 type SimRegistry struct {
-	mu        sync.Mutex
-	Host      string
-	Profile   RegProfile
-	repos     map[string]*regRepo
-	Known     map[string]bool // repositories the workload may address
-	reqs      []ReqRecord
-	Invalid   []string // spec violations found by the validator
-	faults    []NetFault
-	matchCnt  map[int]int
-	Fired     map[string]int
-	FaultReq  []int // numbers of the requests whose response was tampered with
-	uploadSeq int
-	BodyRead  map[int]*int // bytes consumed from response bodies, per request number
-	PadBody   int          // referrers/tags/catalog documents are padded with this much whitespace-free filler
-	ListHook  func(class string, page []string) // observation of pages served
+	mu               sync.Mutex
+	Host             string
+	Profile          RegProfile
+	repos            map[string]*regRepo
+	Known            map[string]bool // repositories the workload may address
+	reqs             []ReqRecord
+	Invalid          []string // spec violations found by the validator
+	faults           []NetFault
+	matchCnt         map[int]int
+	Fired            map[string]int
+	FaultReq         []int // numbers of the requests whose response was tampered with
+	uploadSeq        int
+	BodyRead         map[int]*int                      // bytes consumed from response bodies, per request number
+	AlwaysOCISubject bool                              // contradictory registry: OCI-Subject although the Referrers API is absent
+	PadBody          int                               // referrers/tags/catalog documents are padded with this much whitespace-free filler
+	ListHook         func(class string, page []string) // observation of pages served
 }
 
 func NewSimRegistry(host string, p RegProfile) *SimRegistry {
@@ -612,7 +613,7 @@ func (s *SimRegistry) route(req *http.Request, body []byte, rec *ReqRecord) simR
 			if s.Profile.DigestHeader {
 				h.Set("Docker-Content-Digest", bd.String())
 			}
-			if doc.Subject != nil && s.Profile.ReferrersAPI && s.Profile.OCISubject {
+			if doc.Subject != nil && ((s.Profile.ReferrersAPI && s.Profile.OCISubject) || s.AlwaysOCISubject) {
 				h.Set("OCI-Subject", doc.Subject.Digest.String())
 			}
 			return simResp{status: 201, header: h}
